@@ -727,6 +727,7 @@ class Repository(metaclass=abc.ABCMeta):
             The distribution and whether or not it was cached
         """
         allow_prereleases = force_allow_prerelease or self.allow_prerelease
+        gave_up = False
         if candidates:
             filtered_candidates = filter_candidates(
                 req, candidates, allow_prereleases=allow_prereleases
@@ -768,11 +769,14 @@ class Repository(metaclass=abc.ABCMeta):
 
                 tried_versions.add(candidate.version)
                 if max_downgrade is not None and len(tried_versions) >= max_downgrade:
+                    gave_up = True
                     break
 
         if (
-            _is_all_prereleases(candidates) or req_compile.utils.has_prerelease(req)
-        ) and not allow_prereleases:
+            (_is_all_prereleases(candidates) or req_compile.utils.has_prerelease(req))
+            and not allow_prereleases
+            and not gave_up
+        ):
             self.logger.debug(
                 "No non-prerelease candidates available. Now allowing prereleases"
             )
